@@ -26,10 +26,21 @@ StateDefs(n) ==
 ExceptionDef == [auto |-> FALSE, multi |-> TRUE, require |-> <<>>, add |-> <<>>,
                  remove |-> <<>>, after |-> <<>>]
 
-AllDefs == UNION {StateDefs(n) : n \in NameSet}
+(* the schema space is built as a product, state by state, and the shard is   *)
+(* selected while it is built (the hash of SchemaHash below, accumulated):     *)
+(* nothing outside the shard is ever constructed                               *)
+DefW(d) == Len(d.require) + 3 * Len(d.add) + 7 * Len(d.remove)
+           + 11 * Len(d.after) + (IF d.auto THEN 13 ELSE 0)
+           + (IF d.multi THEN 17 ELSE 0)
+
+RECURSIVE DefSeqs(_, _)
+DefSeqs(i, a) ==
+  IF i > Len(Names)
+  THEN (IF a % ShardMod = ShardIdx THEN {<<>>} ELSE {})
+  ELSE UNION {{<<d>> \o r : r \in DefSeqs(i + 1, a * 31 + DefW(d))} : d \in StateDefs(Names[i])}
 
 RawSchemas ==
-  {s \in [NameSet -> AllDefs] : \A n \in NameSet : s[n] \in StateDefs(n)}
+  {[n \in NameSet |-> q[SIndex(Names, n)]] : q \in DefSeqs(1, 7)}
 
 WithException(s) == [n \in NameSet \cup {"Exception"} |->
                        IF n = "Exception" THEN ExceptionDef ELSE s[n]]
@@ -80,7 +91,10 @@ FaultSpace == {<<1, h>> : h \in NegNames \cup FinNames}
 
 MCNext ==
   \/ /\ ncalls < MaxCalls
-     /\ \E type \in {"add", "remove", "set"} : \E called \in CalledLists :
+     /\ \E type \in {"add", "remove", "set"} :
+        \* fault runs also call the Exception state directly (AddErr): a fault
+        \* inside an Exception handler needs no earlier fault then
+        \E called \in (IF FaultMode THEN CalledLists \cup {<<"Exception">>} ELSE CalledLists) :
         \E check \in BOOLEAN :
            /\ (check => type # "set")
            /\ IF FaultMode /\ ncalls = 0 /\ hs.on
